@@ -91,7 +91,11 @@ int main(int argc, char** argv) {
 			bool const rbv = D >= 2 && g.chance(1, 3); L const rb0 = g.in(-2, 3), rb1 = g.in(1, 3); if(rbv) { count("re-based-views"); describe(" (view re-based)"); }  // the same views with first indices other than 0 in the first two dimensions: the same elements in the same order
 			auto with_v = [&](auto& X, auto&& f0) { auto f = [&](auto&& vv) { if constexpr(D >= 2) { if(rbv) { f0(std::forward<decltype(vv)>(vv).reindexed(rb0, rb1)); return; } } f0(std::forward<decltype(vv)>(vv)); }; switch(vk_) { case 1: vm = m_rotated(root); f(X.rotated()); break; case 2: { L b1 = e[0] >= 2 ? 1 : 0; vm = m_sliced(root, b1, e[0]); f(X.sliced(b1, e[0])); break; } case 3: if constexpr(!std::is_const_v<std::remove_reference_t<decltype(X)>>) { if(e[0] % 2 == 0) { vm = m_strided(root, 2); f(X.strided(2)); break; } } vm = root; f(X()); break;  /* (strided() of a const D>1 array does not compile on the pinned tree) */ case 4: if constexpr(D >= 2) { vm = m_transposed(root); f(X.transposed()); break; } [[fallthrough]]; default: vm = root; f(X()); break; } };
 			bool const ro_src = vk_ != 3 && g.chance(1, 2); if(ro_src) { count("view-saved-through-read-only-view-type"); describe(" (read-only source view)"); }  // the view type of a const array has its own serialize()
-			op((std::string("save-view:") + AK[ak]).c_str()); if(ro_src) with_v(std::as_const(A), [&](auto&& v) { s = save(ak, v); }); else with_v(A, [&](auto&& v) { s = save(ak, v); });
+			op((std::string("save-view:") + AK[ak]).c_str()); bool saved = false;
+#if C17_D == 1  // a 1-D view with a first index other than 0 (reindexed(i) of a 1-D view is a read-only view): it saves its own elements all the same
+			if(!ro_src && g.chance(1, 3)) { L const r1 = g.in(-3, 4) == 0 ? 2 : g.in(-3, 4); count("re-based-1-D-read-only-source"); describe(" (1-D source re-based)"); with_v(A, [&](auto&& v) { s = save(ak, v.reindexed(r1 == 0 ? 1 : r1)); }); saved = true; }
+#endif
+			if(!saved) { if(ro_src) with_v(std::as_const(A), [&](auto&& v) { s = save(ak, v); }); else with_v(A, [&](auto&& v) { s = save(ak, v); }); }
 			Arr W(make_extensions<D>(e)); for(L k = 0; k < W.num_elements(); ++k) W.data_elements()[k] = mk(5000 + k); Arr const W0 = W;
 			op((std::string("load-view:") + AK[ak]).c_str()); with_v(W, [&](auto&& w) { load(ak, s, w); });
 			std::vector<char> in(std::size_t(W.num_elements()), 0); for(L k = 0; k < vm.n(); ++k) { L o = vm.off[std::size_t(k)]; in[std::size_t(o)] = 1; if(!(W.data_elements()[o] == A.data_elements()[o])) violation(K + "elements", "k-th element of the loaded view differs from the k-th element of the saved view, k=" + std::to_string(k)); }
